@@ -127,6 +127,40 @@ pub fn run(ctx: &Ctx) -> Report {
     });
     rep.merge(r);
 
+    // ---- a backend that produces its rows slowly: real pauses (650 ms; 1.6 s in the thorough tier)
+    //      between rows, before the first and before the end of the reply. Whatever the library does
+    //      in the meantime (a timer that flushes what there is, say), the ids of the reply run on
+    if !ctx.miri {
+        let n = if ctx.thorough { 12 } else { 4 };
+        let r = par_cases(ctx, "C05", "slow-backend", n, |rng, i, rep| {
+            let id = [0u8, 250, 255, 7][i as usize % 4];
+            let cols = vec![simple_col("a", ColumnType::MYSQL_TYPE_LONG)];
+            let pause = if ctx.thorough { 1600 } else { 650 };
+            let mut ops = vec![QOp::Start(0)];
+            if i % 3 == 1 {
+                ops.push(QOp::Pause(pause));
+            }
+            for k in 0..3 + rng.below(3) {
+                ops.push(QOp::Row(vec![Cell::val(V::I32(k as i32))], RowForm::Owned));
+                if k == 1 || (k == 2 && i % 2 == 0) {
+                    ops.push(QOp::Pause(pause));
+                }
+            }
+            ops.push(QOp::Finish);
+            let bin = i % 2 == 1;
+            let cmds = vec![Cmd::prepare(b"p"), if bin { Cmd::execute_plain(1, &[], false).seq(id) } else { Cmd::query(b"slow").seq(id) }, Cmd::ping().seq(id.wrapping_add(3))];
+            let scripts = vec![Script::PrepOk { id: 1, params: vec![], cols: cols.clone() }, Script::Q(QProg { colsets: vec![cols.clone()], ops, on_err: OnErr::Drop })];
+            let case = Case::new(cmds, scripts);
+            let obs = run_case(&case);
+            rep.evaluations += 1;
+            rep.counters.class(format!("slow backend, request id {}", id));
+            rep.counters.inc("replies_with_real_pauses_of_the_backend");
+            let d = || J::obj().set("request_id", id).set("pause_ms", pause).set("protocol", if bin { "binary" } else { "text" }).set("outcome", obs.outcome.describe());
+            check(&obs, rep, &d);
+        });
+        rep.merge(r);
+    }
+
     // ---- (a'') the backend's callback returns its own error after part of the reply has gone out (rows,
     //      then `?`): the connection ends, but every packet the server still sends in that exchange -
     //      what the writers' destructors add, and anything the library itself may add - continues the
